@@ -436,6 +436,13 @@ pub fn gen_io(rng: &mut Rng, o: &IoOpts) -> Scenario {
                         let out = format!("{}/built/gen.c", d);
                         t.writes.push(out.clone());
                         t.output.push(Res::Paths { paths: vec![format!("{}/built", d)], extensions: None });
+                        if simrt::stamp::fnv(simrt::stamp::FNV_INIT, format!("{}/{}", pdir, d).as_bytes()) % 2 == 0 {
+                            // a leftover of an earlier version of the script lies in that output
+                            // directory, and the script empties the directory before it writes
+                            // (decided by a hash of the path, not by the generator's stream)
+                            files.push(FileSpec { path: format!("{}/{}/built/stale.c", pdir, d), kind: FileKind::File("generated by an earlier version\n".into()) });
+                            t.wipes.push(format!("{}/built/stale.c", d));
+                        }
                     }
                     if rng.chance(10) {
                         // a tool's control pipe lying in the sources: not a regular file
